@@ -52,6 +52,11 @@ def _taint(v, *src):
     return T(v) if any(isinstance(s, T) for s in src) else int(v)
 
 
+class Lit(str):
+    """text / a character written in the source (comparisons are only meaningful against these)"""
+    pass
+
+
 class Opt:
     def __init__(self, v=None):
         self.v = v
@@ -80,8 +85,10 @@ def literals_of(prog, fns):
 
 
 class Machine:
-    def __init__(self, prog, budget=20000):
+    def __init__(self, prog, budget=20000, ordered=False, signed_char=True):
         self.prog = prog
+        self.ordered = ordered
+        self.signed_char = signed_char
         self.max_index = 0
         self.max_const = 0
         self.steps = 0
@@ -179,11 +186,11 @@ class Machine:
         if k == "lit":
             t = n.get("t")
             if t == "char":
-                return chr(n["v"] & 0xff)
+                return Lit(chr(n["v"] & 0xff))
             if t in ("int", "bool"):
                 return n["v"] if t == "bool" else int(n["v"])
             if t == "str":
-                return n["v"]
+                return Lit(n["v"])
             if t == "nullptr":
                 return None
             raise Unsupported("literal of kind %s" % t)
@@ -259,13 +266,22 @@ class Machine:
         if isinstance(a, str) or isinstance(b, str):
             if not (isinstance(a, str) and isinstance(b, str)):
                 raise Unsupported("text compared with a number: characters are only compared with character literals")
-            if op == "==":
-                return a == b
-            if op == "!=":
-                return a != b
             if op == "+":
                 return a + b
-            raise Unsupported("`%s` on characters / text: only equality keeps the byte classes apart" % op)
+            if not (isinstance(a, Lit) or isinstance(b, Lit)):
+                raise Unsupported("two pieces of the token compared with each other: byte classes do not decide that")
+            if op == "==":
+                return str(a) == str(b)
+            if op == "!=":
+                return str(a) != str(b)
+            if op in ("<", "<=", ">", ">=") and len(a) == 1 and len(b) == 1 and self.ordered:
+                # a character against a character literal: the platform's char (signed here unless the facts say otherwise); the class
+                # alphabet has a representative for every interval between the literals, so the order is decided per class
+                va, vb = ord(a), ord(b)
+                if self.signed_char:
+                    va, vb = (va - 256 if va > 127 else va), (vb - 256 if vb > 127 else vb)
+                return {"<": va < vb, "<=": va <= vb, ">": va > vb, ">=": va >= vb}[op]
+            raise Unsupported("`%s` on text: only equality (and the order of single characters against literals) keeps the byte classes apart" % op)
         if isinstance(a, Opt) or isinstance(b, Opt):
             raise Unsupported("`%s` on an optional" % op)
         if a is None or b is None:
@@ -386,10 +402,41 @@ def decide(prog, ctor, extra_fns=(), limit=400000):
     lits = literals_of(prog, fns) | {0x2d, 0x3d}
     other = next(b for b in (0x78, 0x71, 0x7a, 0x01, 0x02, 0x03) if b not in lits)
     alphabet = sorted(lits) + [other]
+    # characters compared by ORDER with a literal somewhere: one representative for every interval the literals cut the byte range into
+    # (in the platform's char order; 0x80..0xff are negative where char is signed), instead of the single "any other byte"
+    ordered = False
+    signed_char = True
+    for f in fns:
+        for bid, i, e in f.all_elems():
+            x = e.get("expr")
+            if not isinstance(x, dict):
+                continue
+            for n in ir.walk(x):
+                bo = ir.as_binop(n)
+                if bo and bo[0] in ("<", "<=", ">", ">="):
+                    for side in (ir.unwrap(bo[1]), ir.unwrap(bo[2])):
+                        while isinstance(side, dict) and side.get("k") == "cast":
+                            side = ir.unwrap(side.get("e"))
+                        if isinstance(side, dict) and side.get("bits") == 8 and side.get("k") in ("subscript", "call"):
+                            ordered = True
+                            signed_char = not side.get("u")
+    if ordered:
+        key = (lambda b: b - 256 if b > 127 else b) if signed_char else (lambda b: b)
+        cuts = sorted(set(lits) | {0x00}, key=key)
+        reps = set(lits)
+        lo = -128 if signed_char else 0
+        hi = 127 if signed_char else 255
+        prev = lo - 1
+        for c in [key(b) for b in cuts] + [hi + 1]:
+            if c - prev > 1:
+                reps.add((prev + 1) & 0xff)
+            prev = c
+        alphabet = sorted(reps)
+        other = next((b for b in alphabet if b not in lits and 0x21 <= b < 0x7f), other)
     # first pass over short tokens fixes K and C, the second pass uses the derived length
     L = 3
     for _ in range(4):
-        m = Machine(prog)
+        m = Machine(prog, ordered=ordered, signed_char=signed_char)
         verdicts = {}
         n = sum(len(alphabet) ** i for i in range(L + 1))
         if n > limit:
@@ -407,7 +454,7 @@ def decide(prog, ctor, extra_fns=(), limit=400000):
                     verdicts[tok] = ("reject", r.exc, r.node)
                 except OutOfBounds as o:
                     verdicts[tok] = ("oob", str(o), o.node)
-        need = max(m.max_index, m.max_const) + 4
+        need = max(m.max_index, m.max_const) + (3 if ordered else 4)
         if need <= L:
             return {"alphabet": alphabet, "other": other, "length": L, "verdicts": verdicts, "K": m.max_index, "C": m.max_const}
         L = need
